@@ -1,7 +1,47 @@
 import Mustache.Basic.LineIO
+import Mustache.Gen.EntityIR
+/-! `driver entity`: evaluates the GENERATED handle/index functions on argument lines
+    `<fn> <arg>...` (decimal), one result per line — the Lean side of the translator's
+    differential validation. -/
 namespace Mustache.Driver.EntityIR
-/-- stub, replaced when the model lands -/
+open Mustache Mustache.Gen
+
+def b32 (n : Nat) : BitVec 32 := BitVec.ofNat 32 n
+def b64 (n : Nat) : BitVec 64 := BitVec.ofNat 64 n
+
+def eval (fn : String) (a : List Nat) : Option Nat :=
+  match fn, a with
+  | "w_reset", [i, v, w] => some (w_reset (b32 i) (b32 v) (b32 w)).toNat
+  | "w_ctor", [i, v, w] => some (w_ctor (b32 i) (b32 v) (b32 w)).toNat
+  | "w_id", [x] => some (w_id (b64 x)).toNat
+  | "w_version", [x] => some (w_version (b64 x)).toNat
+  | "w_world", [x] => some (w_world (b64 x)).toNat
+  | "w_isnull", [x] => some (w_isnull (b64 x)).toNat
+  | "w_eq", [x, y] => some (w_eq (b64 x) (b64 y)).toNat
+  | "w_ne", [x, y] => some (w_ne (b64 x) (b64 y)).toNat
+  | "w_lt", [x, y] => some (w_lt (b64 x) (b64 y)).toNat
+  | "w_next", [x] => some (w_next (b64 x)).toNat
+  | "w_incr", [x] => some (w_incr (b64 x)).toNat
+  | "w_setversion", [x, v] => some (w_setversion (b64 x) (b32 v)).toNat
+  | "w_resetid", [x, i] => some (w_resetid (b64 x) (b32 i)).toNat
+  | "w_default", [] => some w_default.toNat
+  | "w_align", [o, a] => if w_align_defined (b32 o) (b32 a) then some (w_align (b32 o) (b32 a)).toNat else none
+  | "w_makealigned", [o, a] =>
+      if w_makealigned_defined (b32 o) (b32 a) then some (w_makealigned (b32 o) (b32 a)).toNat else none
+  | "w_div", [i, c] => if w_div_defined (b32 i) (b32 c) then some (w_div (b32 i) (b32 c)).toNat else none
+  | "w_mod", [i, c] => if w_mod_defined (b32 i) (b32 c) then some (w_mod (b32 i) (b32 c)).toNat else none
+  | _, _ => none
+
 def main (_args : List String) : IO UInt32 := do
-  IO.eprintln "driver: model EntityIR not built yet"
-  return 2
+  let _ ← foldStdin (σ := Unit) (fun _ l => do
+    match words l with
+    | fn :: rest =>
+      match natList? rest with
+      | some a =>
+        match eval fn a with
+        | some r => IO.println s!"{r}"
+        | none => IO.println "undefined"
+      | none => IO.println "bad-op"
+    | [] => pure ()) ()
+  return 0
 end Mustache.Driver.EntityIR
